@@ -289,4 +289,54 @@ theorem c10_22_idle_means_full (s : Dll22.St) (h : Cons s) (hidle : s.snd = []) 
 
 end cons22
 
+section frames22
+
+/-- J1939-22 frame rules of the receive path: an FD.TP.CM / FD.TP.DT frame from `src` to `dest` carrying session number
+    `i` touches at most the inbound record (i, src, dest) and the outbound record (i, dest, src) -/
+theorem processDt22_get?_other (s : St) (now : Nat) (mid : MessageId) (dest : Nat) (data : List Nat) (k : Nat)
+    (hk : k ≠ Tp22.buffer_hash (Tp22.dt_session data) mid.source_address dest) :
+    (processDt s now mid dest data).st.rcv.get? k = s.rcv.get? k := by
+  unfold processDt
+  crack [PyDict.get?_set_ne, PyDict.get?_erase_ne]
+
+theorem processCm22_get?_other (cfg : Cfg) (s : St) (now : Nat) (mid : MessageId) (dest : Nat) (data : List Nat) (k : Nat)
+    (hk : k ≠ Tp22.buffer_hash (Tp22.cm_session data) mid.source_address dest) :
+    (processCm cfg s now mid dest data).st.rcv.get? k = s.rcv.get? k := by
+  unfold processCm
+  crack [PyDict.get?_set_ne, PyDict.get?_erase_ne]
+
+theorem processCm22_snd_get?_other (cfg : Cfg) (s : St) (now : Nat) (mid : MessageId) (dest : Nat) (data : List Nat) (k : Nat)
+    (hk : k ≠ Tp22.buffer_hash (Tp22.cm_session data) dest mid.source_address) :
+    (processCm cfg s now mid dest data).st.snd.get? k = s.snd.get? k := by
+  unfold processCm
+  crack [PyDict.get?_set_ne, PyDict.get?_erase_ne]
+
+theorem cm_session_lt (data : List Nat) : Tp22.cm_session data < 16 := by
+  simp only [Tp22.cm_session, J1939.Bits.and_15]; omega
+
+theorem dt_session_lt (data : List Nat) : Tp22.dt_session data < 16 := by
+  simp only [Tp22.dt_session, J1939.Bits.and_15]; omega
+
+/-- J1939-22, TRANSPORT FRAMES NEVER TOUCH A SESSION THAT IS NOT THEIRS: any FD.TP.CM or FD.TP.DT frame from `src` to
+    `dest` leaves every inbound session with another (session number, source, destination) and every outbound session
+    with another (session number, dest, src) exactly as it was — the up to 8 + 4 concurrent sessions of a stack and the
+    sessions of different peers cannot advance, corrupt, complete or free one another -/
+theorem c10_22_frames_keep_other_sessions (cfg : Cfg) (s : St) (now : Nat) (mid : MessageId) (dest : Nat) (data : List Nat)
+    (i' sa' da' : Nat) (h1 : mid.source_address < 256) (h2 : dest < 256) (h0 : i' < 16) (h3 : sa' < 256) (h4 : da' < 256) :
+    (¬ (i' = Tp22.cm_session data ∧ sa' = mid.source_address ∧ da' = dest) →
+      (processCm cfg s now mid dest data).st.rcv.get? (Tp22.buffer_hash i' sa' da') = s.rcv.get? (Tp22.buffer_hash i' sa' da')) ∧
+    (¬ (i' = Tp22.dt_session data ∧ sa' = mid.source_address ∧ da' = dest) →
+      (processDt s now mid dest data).st.rcv.get? (Tp22.buffer_hash i' sa' da') = s.rcv.get? (Tp22.buffer_hash i' sa' da')) ∧
+    (¬ (i' = Tp22.cm_session data ∧ sa' = dest ∧ da' = mid.source_address) →
+      (processCm cfg s now mid dest data).st.snd.get? (Tp22.buffer_hash i' sa' da') = s.snd.get? (Tp22.buffer_hash i' sa' da')) := by
+  refine ⟨fun hne => ?_, fun hne => ?_, fun hne => ?_⟩
+  · exact processCm22_get?_other cfg s now mid dest data _
+      (fun h => hne (J1939.Props.C02.c02_session_key_injective i' sa' da' _ mid.source_address dest h0 h3 h4 (cm_session_lt data) h1 h2 h))
+  · exact processDt22_get?_other s now mid dest data _
+      (fun h => hne (J1939.Props.C02.c02_session_key_injective i' sa' da' _ mid.source_address dest h0 h3 h4 (dt_session_lt data) h1 h2 h))
+  · exact processCm22_snd_get?_other cfg s now mid dest data _
+      (fun h => hne (J1939.Props.C02.c02_session_key_injective i' sa' da' _ dest mid.source_address h0 h3 h4 (cm_session_lt data) h2 h1 h))
+
+end frames22
+
 end J1939.Props.C10
